@@ -632,3 +632,24 @@ def rounding_level_a():
     return {'obligations': len(names), 'discharged': sum(1 for v in names.values() if v[0]),
             'failed': [(n, v[1]) for n, v in names.items() if not v[0]], 'functions': sorted(funcs), 'ms': round(ms, 1),
             'unsupported': uns, 'instances': len(recs)}
+
+
+def keymap_level_a():
+    """contracts/keymap_contracts.py: the real keymap.encode / encrypt under contract"""
+    from contracts import keymap_contracts as KC
+    from pyvc import driver
+    obs, sha = KC.obligations()
+    uns = ['%s: %s' % (o.func, o.info['unsupported']) for o in obs if o.info.get('unsupported')]
+    obs = [o for o in obs if not o.info.get('unsupported')]
+    recs, nq = driver.discharge_grouped(obs)
+    names, funcs, ms = {}, set(), 0.0
+    for r in recs:
+        ok = names.setdefault(r['name'], [True, ''])
+        funcs.add(r['func'])
+        ms += r['ms']
+        if r['res'] != 'unsat':
+            ok[0] = False
+            ok[1] = '%s on path %s (%s)' % (r['res'], r['path'], r['reason'])
+    return {'obligations': len(names), 'discharged': sum(1 for v in names.values() if v[0]),
+            'failed': [(n, v[1]) for n, v in names.items() if not v[0]], 'functions': sorted(funcs), 'ms': round(ms, 1),
+            'unsupported': uns, 'instances': len(recs)}
